@@ -80,5 +80,11 @@ int main(void)
 		printf("]%s\n", i + 1 < n ? "," : "");
 	}
 	printf("]\n");
+#ifdef HAS_TASK_ENUMS
+	/* enum constants of <model>_priv.h the task layer and the breakdown compare against */
+	printf("def stTaskBody : Int := %d\ndef stUnknownSs : Int := %d\n"
+	       "def stProgressing : Int := %d\ndef stResting : Int := %d\ndef stAbsorbing : Int := %d\n",
+	       ST_TASK_BODY, ST_UNKNOWN_SS, ST_PROGRESSING, ST_RESTING, ST_ABSORBING);
+#endif
 	return 0;
 }
